@@ -22,6 +22,27 @@
 (* Every (P, D1, D2) is one initial state; the state carries the case for  *)
 (* the replay (all b with their replica indices) and the predicted outcome *)
 (* of every site.                                                          *)
+(*                                                                         *)
+(* KERNEL STRUCTURE.  A kernel is a TREE of modules and every node has its *)
+(* OWN batch shape (the `batch_shape=` it was constructed with, possibly   *)
+(* none): ScaleKernel(LinearKernel(batch_shape=[b])) is a scale node that  *)
+(* owns nothing over a leaf that owns [b].  The batch shape of the kernel  *)
+(* is the broadcast of the shapes its nodes own, and the replica of b      *)
+(* holds at EVERY node element ShUnb(b, parameter shape of the node).      *)
+(* The triple is therefore read a second way: (A, B, D) = the two parameter*)
+(* batch shapes placed on the nodes of a composite kernel and the batch    *)
+(* shape of the data.  A = <<>> / B = <<>> are the composites that INHERIT *)
+(* their batch shape from a sub-kernel.                                    *)
+(*                                                                         *)
+(* SIZE COINCIDENCES.  The number of rows n of the data is a dimension of  *)
+(* the case: a generic n, n = the feature size, and n = the size of every  *)
+(* batch axis (Shapes.tla, ShCoClass): code that recognises "a matrix" by  *)
+(* the number of axes and the trailing sizes can only go wrong there.      *)
+(*                                                                         *)
+(* MODEL LISTS.  Family = "list": every sequence of member kinds (length   *)
+(* 1..MaxMembers, homogeneous and heterogeneous) of an                     *)
+(* IndependentModelList; output i of every operation of the list depends   *)
+(* on member i and argument i only.                                        *)
 (***************************************************************************)
 EXTENDS Shapes, TLC
 
@@ -29,7 +50,13 @@ CONSTANTS Dims,        \* axis sizes, {1, 2, 3}
           MaxRank,     \* 2
           NPts, MPts,  \* rows of x1 / x2 used by the replay (4, 3)
           DFeat,       \* feature dimension (2)
-          NCo,         \* a number of rows that coincides with an axis size of Dims (3)
+          Family,      \* "triple" (batch-shape triples), "list" (member kinds of a model list) or "both"
+          WithStruct,  \* BOOLEAN: carry the kernel-structure predictions in the case (only the runs that check / dump them pay for them)
+          AllRows,     \* BOOLEAN: the structure predictions range over every row count of Rows (else: over the row counts the case is replayed with)
+          CheckStructs,\* the structures of StructNames this run evaluates (the structure runs split them: initial states are computed by one thread)
+          MaxMembers,  \* longest model list (3)
+          Variants,    \* rejected variants of the code the lattice must tell from the code (adequacy of the lattice), subset of
+                       \*   {"diag_own_batch", "fantasy_noise_carry"}
           CheckSites,  \* the sites whose alignment this run asserts
           Repaired     \* subset of {"rq_alpha", "const_kernel", "call_diag", "multitask"}: transcribe the repaired arithmetic of
                        \* that site family instead of the arithmetic of the pinned commit (see checks/c08.py REPAIRED)
@@ -42,13 +69,20 @@ BProd(q) == IF q = <<>> THEN 1 ELSE Head(q) * BProd(Tail(q))
 BStride(s, k) == BProd(SubSeq(s, k + 1, Len(s)))
 BUnravel(p, s) == [k \in 1..Len(s) |-> (p \div BStride(s, k)) % s[k]]
 
+\* ---- the row counts of the size-coincidence dimension: the generic one, then the axis sizes in ascending order --------------
+RECURSIVE BSorted(_)
+BSorted(S) == IF S = {} THEN <<>> ELSE LET m == CHOOSE x \in S : \A y \in S : x <= y IN <<m>> \o BSorted(S \ {m})
+Rows == <<NPts>> \o BSorted(Dims \ {NPts})
+ASSUME NPts \notin Dims /\ NPts # DFeat /\ DFeat \in Dims       \* NPts is generic; the feature size is one of the coincidence rows
+
 \* ---- the sites ---------------------------------------------------------------------------------
 \* par : shape of the parameter tensor at the moment it meets the data-shaped tensor (its first np axes are P)
 \* with: shape of the data-shaped tensor;  op: "bc" (arithmetic / matmul batch broadcasting) or "expand"
 \* exp : shape the property requires for the result; its last nt axes are not batch axes
 SiteNames == {"lengthscale_x1", "lengthscale_x2", "outputscale_full", "outputscale_diag", "rq_alpha_full", "rq_alpha_diag",
               "constant_mean", "linear_mean_weights", "linear_mean_bias", "noise", "const_kernel_full", "const_kernel_diag",
-              "var_inducing_values", "multitask_task_covar", "call_diag", "call_diag_nco", "call_diag_ignored"}
+              "var_inducing_values", "multitask_task_covar", "call_diag", "call_diag_n1", "call_diag_n2", "call_diag_n3",
+              "call_diag_ignored"}
 
 Site(name, P, D1, D2) ==
   LET Out == ShBc3(P, D1, D2)
@@ -143,10 +177,143 @@ SiteOutcome(name, P, D1, D2) ==
   IF name = "call_diag" THEN CallDiagOutcome(P, D1, NPts)
   ELSE IF name = "call_diag_ignored" THEN CallDiagIgnoredOutcome(P, D1, NPts)
   ELSE IF name = "multitask_task_covar" THEN MultitaskOutcome(P, D1, D2)
-  ELSE IF name = "call_diag_nco" THEN CallDiagOutcome(P, D1, NCo)
+  ELSE IF name = "call_diag_n1" THEN CallDiagOutcome(P, D1, 1)          \* rows = the size of a batch axis / of the feature axis
+  ELSE IF name = "call_diag_n2" THEN CallDiagOutcome(P, D1, 2)
+  ELSE IF name = "call_diag_n3" THEN CallDiagOutcome(P, D1, 3)
   ELSE AlignOutcome(Site(name, P, D1, D2), P)
 
+\* ---- kernel structure: trees of modules, every node with its own batch shape -----------------------
+\* own: "A", "B" (the node was built with batch_shape = A / B of the case) or "none" (built without batch shape)
+KLeaf(o)      == [op |-> "leaf",  own |-> o, kids |-> <<>>]
+KScale(o, k)  == [op |-> "scale", own |-> o, kids |-> <<k>>]               \* ScaleKernel(k, batch_shape=o)
+KSum(k1, k2)  == [op |-> "sum",   own |-> "none", kids |-> <<k1, k2>>]     \* AdditiveKernel: no parameters, no batch shape of its own
+KProd(k1, k2) == [op |-> "prod",  own |-> "none", kids |-> <<k1, k2>>]     \* ProductKernel
+
+StructNames == {"scale(leaf)", "sum(leaf,leaf)", "prod(leaf,leaf)", "sum(scale(leaf),leaf)", "prod(scale(leaf),leaf)",
+                "scale(scale(leaf))", "scale(sum(leaf,leaf))", "sum(scale(prod(leaf,leaf)),leaf)"}
+
+Struct(name) ==
+  CASE name = "scale(leaf)"            -> KScale("A", KLeaf("B"))
+    [] name = "sum(leaf,leaf)"         -> KSum(KLeaf("A"), KLeaf("B"))
+    [] name = "prod(leaf,leaf)"        -> KProd(KLeaf("A"), KLeaf("B"))
+    [] name = "sum(scale(leaf),leaf)"  -> KSum(KScale("none", KLeaf("A")), KLeaf("B"))      \* a member that inherits, next to a batched member
+    [] name = "prod(scale(leaf),leaf)" -> KProd(KScale("none", KLeaf("A")), KLeaf("B"))
+    [] name = "scale(scale(leaf))"     -> KScale("none", KScale("A", KLeaf("B")))           \* inherits through two levels
+    [] name = "scale(sum(leaf,leaf))"  -> KScale("A", KSum(KLeaf("B"), KLeaf("none")))
+    [] name = "sum(scale(prod(leaf,leaf)),leaf)" -> KSum(KScale("none", KProd(KLeaf("A"), KLeaf("B"))), KLeaf("none"))
+
+KOwn(k, A, B) == IF k.own = "A" THEN A ELSE IF k.own = "B" THEN B ELSE <<>>
+
+\* the shapes owned by the nodes of the tree (pre-order)
+RECURSIVE KOwns(_, _, _)
+KOwns(k, A, B) == <<KOwn(k, A, B)>> \o (IF Len(k.kids) = 0 THEN <<>>
+                                        ELSE IF Len(k.kids) = 1 THEN KOwns(k.kids[1], A, B)
+                                        ELSE KOwns(k.kids[1], A, B) \o KOwns(k.kids[2], A, B))
+
+\* Kernel.batch_shape (property): broadcast_shapes(self._batch_shape, *[k.batch_shape for k in self.sub_kernels()])
+RECURSIVE KEff(_, _, _)
+KEff(k, A, B) == IF Len(k.kids) = 0 THEN KOwn(k, A, B)
+                 ELSE IF Len(k.kids) = 1 THEN ShBc2(KOwn(k, A, B), KEff(k.kids[1], A, B))
+                 ELSE ShBc3(KOwn(k, A, B), KEff(k.kids[1], A, B), KEff(k.kids[2], A, B))
+
+\* the batch shape of the node's PARAMETERS.  ScaleKernel.__init__: outputscale = torch.zeros(*self.batch_shape) reads the property, i.e.
+\* the broadcast of what the node owns with the batch shape of its base kernel: a ScaleKernel built without batch_shape over a batched
+\* base kernel has one outputscale per batch element (its _batch_shape stays empty).  The replica of b holds ShUnb(b, KPar(node)).
+KPar(k, A, B) == IF k.op = "scale" THEN KEff(k, A, B) ELSE KOwn(k, A, B)
+
+\* what the replicas give: one diagonal / one matrix per element of broadcast(batch shape of the kernel, data batch)
+KFullWant(k, A, B, D, n, m) == ShBc2(KEff(k, A, B), D) \o <<n, m>>
+
+\* forward(x1, x2, diag=True) and Kernel.__call__(x1, x2, diag=True) on data of batch shape D with n rows: the shape of the
+\* result, and whether every __call__ inside returned the shape of ITS replicas (a member that returns another shape cannot hold its
+\* replicas' values even when broadcasting with the other members hides it in the shape of the sum / product)
+\*   ScaleKernel.forward: self.base_kernel.forward(..., diag=True) * outputscale.unsqueeze(-1)          (forward, not __call__)
+\*   AdditiveKernel / ProductKernel.forward: kern(x1, x2, diag=True) for every member                   (__call__)
+\*   Kernel.__call__: n_batch = len(broadcast_shapes(x1.shape[:-2], x2.shape[:-2], self.batch_shape));
+\*                    if res.dim() == n_batch + 2 and res.shape[-2:] == (n, n): res = res.diagonal(dim1=-1, dim2=-2)
+\*   variant "diag_own_batch": self._batch_shape (what the node owns) in the place of self.batch_shape
+RECURSIVE KFwdDiag(_, _, _, _, _, _), KCallDiag(_, _, _, _, _, _)
+KFwdDiag(k, A, B, D, n, V) ==
+  IF k.op = "leaf" THEN [sh |-> ShBc2(KOwn(k, A, B), D) \o <<n>>, sound |-> TRUE]
+  ELSE IF k.op = "scale" THEN LET r == KFwdDiag(k.kids[1], A, B, D, n, V)
+                              IN [sh |-> ShBc2(r.sh, KPar(k, A, B) \o <<1>>), sound |-> r.sound]
+  ELSE LET r1 == KCallDiag(k.kids[1], A, B, D, n, V)
+           r2 == KCallDiag(k.kids[2], A, B, D, n, V)
+       IN [sh |-> ShBc2(r1.sh, r2.sh), sound |-> r1.sound /\ r2.sound]
+KCallDiag(k, A, B, D, n, V) ==             \* fwd: what forward returned (LazyEvaluatedKernelTensor._diagonal stops there)
+  LET r    == KFwdDiag(k, A, B, D, n, V)
+      eff  == KEff(k, A, B)
+      want == ShBc2(eff, D) \o <<n>>
+      nb   == IF "call_diag" \notin Repaired THEN Len(D)                                  \* pinned commit: res.dim() == x1_.dim()
+              ELSE Len(ShBc2(D, IF "diag_own_batch" \in V THEN KOwn(k, A, B) ELSE eff))
+      eats == r.sh # ShNone /\ Len(r.sh) = nb + 2 /\ SubSeq(r.sh, Len(r.sh) - 1, Len(r.sh)) = <<n, n>>
+      fin  == IF eats THEN SubSeq(r.sh, 1, Len(r.sh) - 2) \o <<n>> ELSE r.sh
+  IN [sh |-> fin, sound |-> r.sound /\ fin = want, fwd |-> r, want |-> want]
+
+KOutcome(r, want) == IF r.sh = ShNone THEN "raises" ELSE IF r.sh # want THEN "shape" ELSE IF ~r.sound THEN "values" ELSE "ok"
+
+\* k(x1, x2, diag=True), and LazyEvaluatedKernelTensor._diagonal: Module.__call__ of the root (= forward, no heuristic at the root),
+\* then res.view(self.shape[:-1]) with self.shape = broadcast_shapes(x1 batch, x2 batch, kernel.batch_shape) + (n, n)
+KDiagOutcomes(k, A, B, D, n, V) == LET r == KCallDiag(k, A, B, D, n, V)
+                                   IN [diag |-> KOutcome(r, r.want), lazydiag |-> KOutcome(r.fwd, r.want)]
+
+\* the full matrix: no heuristic, the members' matrices broadcast
+RECURSIVE KFwdFull(_, _, _, _, _, _)
+KFwdFull(k, A, B, D, n, m) ==
+  IF k.op = "leaf" THEN ShBc2(KOwn(k, A, B), D) \o <<n, m>>
+  ELSE IF k.op = "scale" THEN ShBc2(KFwdFull(k.kids[1], A, B, D, n, m), KPar(k, A, B) \o <<1, 1>>)
+  ELSE ShBc2(KFwdFull(k.kids[1], A, B, D, n, m), KFwdFull(k.kids[2], A, B, D, n, m))
+
+KFullOutcome(k, A, B, D, n, m) == KOutcome([sh |-> KFwdFull(k, A, B, D, n, m), sound |-> TRUE], KFullWant(k, A, B, D, n, m))
+
+\* predictions for the triple read as (A, B, D): every structure, the diag modes for every row count in ns, the full matrix
+\* (k(x1, x2): n x m, k(x1): n x n) for the generic sizes (its shape arithmetic looks at no size).  The case carries the cells
+\* <<structure, mode, rows, outcome>> whose outcome is not "ok".  (the variants touch the diag modes only)
+StructCells(A, B, D, ns, V) ==
+  UNION {LET k == Struct(S) IN
+           (IF V = {} THEN {<<S, "full", NPts, KFullOutcome(k, A, B, D, NPts, MPts)>>, <<S, "self", NPts, KFullOutcome(k, A, B, D, NPts, NPts)>>}
+            ELSE {})
+           \cup UNION {LET r == KDiagOutcomes(k, A, B, D, n, V)
+                       IN {<<S, "diag", n, r.diag>>, <<S, "lazydiag", n, r.lazydiag>>} : n \in ns}
+         : S \in StructNames \cap CheckStructs}
+StructBad(A, B, D, ns, V) == {x \in StructCells(A, B, D, ns, V) : x[4] # "ok"}
+
+\* ---- model lists ---------------------------------------------------------------------------------
+\* member kinds: the likelihood of the member decides which arguments the list has to hand to it
+MemberKinds == {"gaussian", "fixed", "fixed_learn"}      \* GaussianLikelihood, FixedNoiseGaussianLikelihood (learn_additional_noise)
+NeedsNoise(kind) == kind \in {"fixed", "fixed_learn"}    \* its fantasy points need a noise tensor
+ListOps == {"call_train", "call_eval", "likelihood", "sum_mll", "fantasy", "fantasy_fast_pred_var"}
+
+\* the `noise` list the caller passes to get_fantasy_model: entry i is member i's own tensor (written i) or None (written 0)
+NoiseArg(kinds) == [i \in 1..Len(kinds) |-> IF NeedsNoise(kinds[i]) THEN i ELSE 0]
+
+\* IndependentModelList.get_fantasy_model:
+\*   kwargs = [{**kwargs, "noise": noise_} if noise_ is not None else kwargs for noise_ in noise]
+\* variant "fantasy_noise_carry": one dict updated in a loop - a None entry keeps the noise of the closest member before it
+RECURSIVE LastGiven(_, _)
+LastGiven(arg, i) == IF i = 0 THEN 0 ELSE IF arg[i] # 0 THEN arg[i] ELSE LastGiven(arg, i - 1)
+NoiseGot(kinds, V) == LET arg == NoiseArg(kinds)
+                      IN [i \in 1..Len(kinds) |-> IF "fantasy_noise_carry" \in V THEN LastGiven(arg, i) ELSE arg[i]]
+
+\* the members whose state / arguments output i of operation op reads (every operation zips members with their arguments)
+ListDeps(kinds, op, V) ==
+  [i \in 1..Len(kinds) |-> {i} \cup (IF op \in {"fantasy", "fantasy_fast_pred_var"} /\ NoiseGot(kinds, V)[i] # 0
+                                      THEN {NoiseGot(kinds, V)[i]} ELSE {})]
+
+ListCase(kinds) == [kinds |-> kinds, noise |-> NoiseArg(kinds),
+                    got  |-> NoiseGot(kinds, {}), deps |-> [op \in ListOps |-> ListDeps(kinds, op, {})],
+                    vgot |-> NoiseGot(kinds, Variants), vdeps |-> [op \in ListOps |-> ListDeps(kinds, op, Variants)],
+                    hetero |-> Cardinality({kinds[i] : i \in 1..Len(kinds)}) >= 2]
+
 \* ---- the case carried by a state ---------------------------------------------------------------
+CaseRows(P, D1, D2) == ShCoRows(P, NPts, DFeat) \cup ShCoRows(D1, NPts, DFeat) \cup ShCoRows(D2, NPts, DFeat)
+\* n is the size of a batch axis of the case (an axis of an intermediate result has the size of an axis of P, D1 or D2)
+CaseCoincides(P, D1, D2, n) == \E s \in {P, D1, D2} : ShCoAxes(s, n) # {}
+CaseRowSeq(P, D1, D2) ==
+  SelectSeq([i \in 1..Len(Rows) |-> [n |-> Rows[i], co |-> ShCoClass(ShBc3(P, D1, D2), Rows[i], MPts, DFeat),
+                                     batch |-> CaseCoincides(P, D1, D2, Rows[i])]],
+            LAMBDA r : r.n \in CaseRows(P, D1, D2))
+StructRows(P, D1, D2) == IF AllRows THEN ShRange(Rows) ELSE CaseRows(P, D1, D2)
 Case(P, D1, D2) ==
   LET Out == ShBc3(P, D1, D2)
       ok  == Out # ShNone
@@ -154,15 +321,26 @@ Case(P, D1, D2) ==
   IN [P |-> P, D1 |-> D1, D2 |-> D2, ok |-> ok,
       out |-> IF ok THEN Out ELSE <<>>,
       y   |-> IF ok THEN Y ELSE <<>>,
-      reps |-> IF ok THEN [q \in 1..BProd(Out) |->
+      reps |-> IF ok /\ ~WithStruct THEN [q \in 1..BProd(Out) |->
                              LET b == BUnravel(q - 1, Out)
                              IN [b |-> b, p |-> ShUnb(b, P), d1 |-> ShUnb(b, D1), d2 |-> ShUnb(b, D2), y |-> ShUnb(b, Y)]]
                ELSE <<>>,
-      pred |-> IF ok THEN [s \in SiteNames |-> SiteOutcome(s, P, D1, D2)] ELSE [s \in SiteNames |-> "rejected"]]
+      pred |-> IF ok /\ ~WithStruct THEN [s \in SiteNames |-> SiteOutcome(s, P, D1, D2)] ELSE <<>>,
+      \* the size-coincidence dimension: which row counts of Rows this case is replayed with, and their classes
+      rows |-> IF ok THEN CaseRowSeq(P, D1, D2) ELSE <<>>,
+      \* the triple read as (A, B, D) = (P, D1, D2): composite kernels, the code and the rejected variants
+      \* (the row counts the case is replayed with; HeuristicNeedsCoincidence over ALL row counts is checked by the run with AllRows = TRUE)
+      sbad |-> IF ok /\ WithStruct THEN StructBad(P, D1, D2, StructRows(P, D1, D2), {}) ELSE {},
+      vbad |-> IF ok /\ WithStruct /\ Variants # {} THEN StructBad(P, D1, D2, StructRows(P, D1, D2), Variants) ELSE {}]
 
 AllShapes == ShShapes(Dims, MaxRank)
 
-Init == \E P \in AllShapes, D1 \in AllShapes, D2 \in AllShapes : c = Case(P, D1, D2)
+ListConfigs == UNION {[1..r -> MemberKinds] : r \in 1..MaxMembers}
+
+\* Family = "both": the two families in one run (the generation run); IsTriple tells the states apart
+Init == \/ Family \in {"list", "both"} /\ \E kinds \in ListConfigs : c = ListCase(kinds)
+        \/ Family \in {"triple", "both"} /\ \E P \in AllShapes, D1 \in AllShapes, D2 \in AllShapes : c = Case(P, D1, D2)
+IsTriple == "P" \in DOMAIN c
 Next == UNCHANGED c
 Spec == Init /\ [][Next]_c
 
@@ -215,7 +393,7 @@ NoBroadcastIdentity == (c.ok /\ c.P = c.D1 /\ c.D1 = c.D2) => \A q \in DOMAIN c.
 
 \* the case lists every b exactly once
 RepsComplete ==
-  c.ok => /\ Len(c.reps) = ShNumel(c.out)
+  (IsTriple /\ c.ok) => /\ Len(c.reps) = ShNumel(c.out)
           /\ {c.reps[q].b : q \in DOMAIN c.reps} = ShIndices(c.out)
           /\ \A q \in DOMAIN c.reps : c.reps[q].y = ShUnb(c.reps[q].b, c.y) /\ ShUnb(c.reps[q].y, c.P) = c.reps[q].p
 
@@ -224,5 +402,37 @@ Algebra == /\ Commutative /\ Associative /\ IdempotentUnit /\ FoldIsDeclarative 
 
 \* ---- the code-shaped sites line parameters up like right-aligned broadcasting -----------------
 SitesAligned == c.ok => \A s \in CheckSites : c.pred[s] = "ok"
+
+\* ---- kernel structure and size coincidences --------------------------------------------------------
+\* the batch shape of a composite kernel is numpy's broadcast of the shapes its nodes own (declarative, all at once)
+StructBatchIsBroadcast ==
+  c.ok => \A S \in StructNames \cap CheckStructs : KEff(Struct(S), c.P, c.D1) = ShBroadcastAll(KOwns(Struct(S), c.P, c.D1))
+
+\* the replay runs every case with a row count of every coincidence class of its batch shape
+CoincidencesCovered ==
+  c.ok => LET used == {c.rows[i].n : i \in DOMAIN c.rows}
+          IN /\ \A s \in {c.P, c.D1, c.D2, c.out} : ShCoCovered(s, used, DFeat)
+             /\ \A n \in ShRange(Rows) : n \in used <=> (n \in {NPts, DFeat} \/ CaseCoincides(c.P, c.D1, c.D2, n))
+             /\ \A i \in DOMAIN c.rows : /\ c.rows[i].co = ShCoClass(c.out, c.rows[i].n, MPts, DFeat)
+                                          /\ c.rows[i].batch = CaseCoincides(c.P, c.D1, c.D2, c.rows[i].n)
+
+\* every composite returns the shape of its replicas, in every evaluation mode, for every row count (AllRows: used by the replay or not)
+StructAligned == (c.ok /\ WithStruct) => c.sbad = {}
+
+\* a heuristic that recognises a matrix by its trailing sizes can go wrong ONLY where the row count coincides with a batch axis:
+\* holds for the code and for the rejected variants alike (it is what makes the coincidence rows the right classes to enumerate)
+HeuristicNeedsCoincidence ==
+  (c.ok /\ WithStruct) => \A x \in c.sbad \cup c.vbad :
+                            x[2] \in {"diag", "lazydiag"} => \E i \in DOMAIN c.rows : c.rows[i].n = x[3] /\ c.rows[i].batch
+
+Structure == StructBatchIsBroadcast /\ CoincidencesCovered /\ StructAligned /\ HeuristicNeedsCoincidence
+
+\* ---- model lists -------------------------------------------------------------------------------------
+\* output i of every operation of the list reads member i and argument i, nothing else; a member whose entry is None gets no noise
+ListIndependent == ~IsTriple => /\ \A op \in ListOps, i \in 1..Len(c.kinds) : c.deps[op][i] = {i}
+                                /\ \A i \in 1..Len(c.kinds) : c.got[i] = c.noise[i]
+\* (the same over the variant fields: no invariant of a run - checks/c08.py reads vdeps and requires that some configuration of member
+\* kinds violates it, i.e. that the enumerated lists can tell the variant fantasy_noise_carry from the code)
+ListVariantIndependent == ~IsTriple => \A op \in ListOps, i \in 1..Len(c.kinds) : c.vdeps[op][i] = {i}
 
 =============================================================================
